@@ -812,6 +812,10 @@ class VhdlScope:
                     name.lower() not in used_names
                 ), f"port name '{name}' is a reserved name or collides with another declaration"
 
+            # objects that are not part of the interface can be renamed,
+            # characters that are not allowed in basic identifiers are replaced
+            name = re.sub(r"[^A-Za-z0-9_]", "_", name)
+
             # remove leading and trailing underscores
             # since they are not allowed in vhdl
             name = name.strip("_")
@@ -819,6 +823,10 @@ class VhdlScope:
             # consecutive underscores are not allowed either
             while "__" in name:
                 name = name.replace("__", "_")
+
+            # identifiers start with a letter and are not empty
+            if len(name) == 0 or not name[0].isalpha():
+                name = ("id_" + name).rstrip("_")
 
             # avoid name collisions by appending counter to names
             if name.lower() in used_names:
